@@ -570,6 +570,9 @@ pub fn run(seed: u64, ntraces: usize) {
                             let transfers = g.w.r.blockchain_mock.vm.builtin_functions.extract_token_transfers(&multiversx_sc_scenario::multiversx_chain_vm::tx_mock::async_call_tx_input(&p.call, multiversx_sc_scenario::multiversx_chain_vm::tx_mock::CallType::AsyncCall));
                             let egld = p.call.call_value.clone(); let to = transfers.real_recipient.clone();
                             let esdts: Vec<(Vec<u8>, BigUint)> = transfers.transfers.iter().map(|t| (t.token_identifier.clone(), t.value.clone())).collect();
+                            // a promise whose attached funds the service no longer holds fails at the destination call (as on chain); never a harness panic
+                            let ok = ok && { let acc = g.w.r.blockchain_mock.state.accounts.get(&its_addr).unwrap();
+                                acc.egld_balance >= egld && esdts.iter().all(|(tk, v)| &acc.esdt.get_esdt_balance(tk, 0) >= v) };
                             let st = g.w.manual_step(|rr| { if ok {
                                 let s = &mut rr.blockchain_mock.state;
                                 s.accounts.get_mut(&its_addr).unwrap().egld_balance -= &egld; s.accounts.get_mut(&to).unwrap().egld_balance += &egld;
